@@ -1,9 +1,9 @@
 package main
 
 import (
-	"strings"
-	"go/types"
 	"go/token"
+	"go/types"
+	"strings"
 
 	"golang.org/x/tools/go/ssa"
 )
